@@ -76,11 +76,11 @@ func init() {
 		level: "model_checking",
 		rule: "TLC enumerates every history of N top-level steps over the dynamic predicate p/1 (initially p(1). p(2). p(_). p(2).): plain asserta/assertz/retract/retractall/abolish and " +
 			"failure-driven loops that update p/1 while a call to p/1, a retract/1 or a clause/2 on it is open; Engine.tla predicts every call port and the clause/2 listing after every step " +
-			"(LUV, DbStep, IdsUnique checked on every transition) and the real interpreter must reproduce them. distinct_nontrivial = distinct histories containing an update inside an open call/retract/clause",
+			"(LUV, DbStep, IdsUnique checked on every transition) and the real interpreter must reproduce them; the same histories run over q/0, where every fact is a duplicate of every other. distinct_nontrivial = distinct histories containing an update inside an open call/retract/clause",
 		assume:  []string{"retractall/1 on an undefined procedure is left open (ISO creates the procedure, the property is silent): such histories are not judged"},
 		trusted: []string{"TLC", "Engine.tla as the reference semantics", "harness renderer/canonicaliser (jt)"},
 		run: func(c *checkCtx) {
-			for _, cfg := range []string{"GenDb_" + c.tier + ".cfg", "GenDb_" + c.tier + "2.cfg"} {
+			for _, cfg := range []string{"GenDb_" + c.tier + ".cfg", "GenDb_" + c.tier + "2.cfg", "GenDb_" + c.tier + "_q0.cfg", "GenDb_" + c.tier + "2_q0.cfg"} {
 				r := c.mcHolds("GenDb", cfg, tlcOpts{})
 				if r.ncases == 0 {
 					infra("GenDb produced no cases")
